@@ -398,6 +398,8 @@ def build(rng, g):
         if n in whole:
             r, c = whole[n]
             vals[n] = [[value_for(rng) for _ in range(c)] for _ in range(r)]
+        elif n in info["gen"].int_params:
+            vals[n] = rng.choice([1, 2, 3, 5, -1, -2, 7, 0, 12, -40])     # an element of an int array
         else:
             vals[n] = value_for(rng)
     return text, vals, whole
